@@ -1,5 +1,10 @@
 package rules
 
+import (
+	"strings"
+
+	"nsqverif/an"
+)
 
 // Clauses that two properties state in their own words are armed under both, so that each property's check
 // stands on its own (a change that breaks the clause must be reported by the check of either property).
@@ -7,16 +12,25 @@ func init() {
 	reg("C09.rdy", "GUARD", "RDY count outside [0, max-rdy-count] is refused with the fatal E_INVALID (shared clause with C03.rdy)", 3, c03rdy)
 	reg("C09.cls", "PATH", "CLS answers CLOSE_WAIT after starting the close; RDY after CLS is ignored (shared clause with C03.cls)", 4, c03cls)
 	reg("C09.nonfatal", "ETYPE+PATH", "FIN/REQ/TOUCH for a message the connection does not hold: non-fatal E_FIN_FAILED/E_REQ_FAILED/E_TOUCH_FAILED (shared with C02.nonfatal)", 5, c02nonfatal)
-	reg("C09.parse", "IVAL", "numbers in commands cannot overflow between parsing and use (shared with C04.parse)", 6, c04parse)
-	reg("C10.defer", "GUARD", "/pub?defer is rejected outside [0, max-req-timeout] exactly like DPUB (shared with C04.range)", 5, c04range)
-	reg("C10.parse", "IVAL", "the defer argument cannot overflow between parsing and use (shared with C04.parse)", 6, c04parse)
+	reg("C09.parse", "IVAL", "numbers in TCP commands cannot overflow between parsing and use (the TCP sites of C04.parse)", 6, only(c04parse, func(n string) bool { return !strings.Contains(n, "httpServer") }))
+	reg("C10.defer", "GUARD", "/pub?defer is rejected outside [0, max-req-timeout] exactly like DPUB, and the topic pump honours the delay (the HTTP and fan-out sites of C04.range)", 2, only(c04range, func(n string) bool {
+		return strings.Contains(n, "httpServer") || strings.Contains(n, "Topic).messagePump")
+	}))
+	reg("C10.parse", "IVAL", "the defer argument cannot overflow between parsing and use (the HTTP site of C04.parse)", 1, only(c04parse, func(n string) bool { return strings.Contains(n, "httpServer") }))
 	reg("C10.names", "GUARD+ORIG", "topic/channel names in HTTP requests are validated by the same predicate as TCP (shared with C09.names)", 8, c09names)
 	reg("C15.own", "ORIG", "a connection can only add/remove its own producer (shared with C14.own)", 6, c14own)
-	reg("C15.disconnect", "PATH+ORIG", "a peer's registrations are removed when its connection ends, other peers' stay (shared with C14.disconnect)", 2, c14disconnect)
 	reg("C05.codec", "SHAPE", "attempts, id, timestamp and body survive the disk encoding (shared with C07.codec)", 8, c07codec)
-	reg("C13.count", "PATH", "client in-flight/finish/requeue counters move only with their transition (shared with C03.count)", 3, c03count)
+	reg("C13.count", "PATH", "client in-flight/finish/requeue counters move only with their transition (shared with C03.count, all counters)", 3, c13count)
 	reg("C13.nonfatal", "ETYPE+PATH", "a rejected FIN/REQ does not touch the consumer's counters (shared with C02.nonfatal)", 5, c02nonfatal)
 	reg("C08.winner", "LOCK+GUARD+CALLS", "single-winner in-flight pop under concurrent FIN/REQ/TOUCH/timeout (shared with C02.winner)", 9, c02winner)
 	reg("C01.copy", "ORIG", "each channel gets its own message object, so one channel's delivery state cannot hide the message from another (shared with C02.copy)", 1, c02copy)
-	reg("C03.order", "PATH", "a message is counted in flight before it is written to the consumer (shared with C02.order)", 2, c02order)
+	reg("C03.order", "PATH", "a message is counted in the consumer's in-flight count before it is written to the consumer (the SendingMessage half of C02.order)", 1, c03order)
+}
+
+// only restricts a shared clause to the sites relevant for the aliasing property.
+func only(run func(*an.Ctx), keep func(fnName string) bool) func(*an.Ctx) {
+	return func(c *an.Ctx) {
+		c.Only = keep
+		run(c)
+	}
 }
